@@ -895,3 +895,10 @@ def _is_local(b, cond, l):
             return False
         op = ds[0][3]["rv"]["op"]
     return False
+
+
+@rule("C01", "R01.7", floor=1)
+def r01_7(ctx):
+    """directive output reaches the file only through the formatter; ordinary lines only through tag injection (= C16 R16.2)"""
+    import rules_text
+    rules_text.r16_2(ctx)
